@@ -1,5 +1,18 @@
 import { RegularDecodeError, UnionDecodeError, DecodeError } from "./types.js";
 
+// JSON.stringify throws on bigint (and on cycles) and returns undefined for functions/symbols;
+// error reporting must never throw because of the value it reports.
+export const safeStringify = (it: unknown): string => {
+  if (typeof it === "bigint") {
+    return `${it}n`;
+  }
+  try {
+    return JSON.stringify(it, (_key, v) => (typeof v === "bigint" ? `${v}n` : v)) ?? String(it);
+  } catch {
+    return String(it);
+  }
+};
+
 const prettyPrintValue = (it: unknown): string => {
   if (typeof it === "string") {
     return `"${it}"`;
@@ -19,7 +32,7 @@ const prettyPrintValue = (it: unknown): string => {
   if (typeof it === "object") {
     return `Object`;
   }
-  return JSON.stringify(it);
+  return safeStringify(it);
 };
 
 const joinWithDot = (it: string[]): string => {
